@@ -69,6 +69,37 @@ def run(chk):
             chk.violation('fingerprints %s differ from the digests of the RFC 4253 blob %s' % (flat, sorted(want.values())),
                           {'cmd': cmd, 'impl': flat, 'reference': sorted(want.values())}, None, True)
         seen.add(flat[0])
+    # wire blobs of RSA keys under every key-type name the implementation accepts for RSA, and DSS blobs, parsed through the
+    # public-key variant: key_bytes must be the wire blob itself, the fingerprints its digests, known_hosts its base64
+    from cryptoparser.ssh.key import SshHostKeyRSA, SshHostPublicKeyVariant
+    wire_cmds = []
+    for name in sorted(a.value.code for a in SshHostKeyRSA.get_host_key_algorithms()):
+        bits = rng.choice([1024, 1025, 2047, 2048])
+        wire_cmds.append('rsablobn %s %d %d' % (name.encode('ascii').hex(), rng.choice([3, 65537]), rng.getrandbits(bits) | 1 | (1 << (bits - 1))))
+    for _ in range(3):
+        wire_cmds.append('dssblob %d %d %d %d' % (rng.getrandbits(1024) | (1 << 1023), rng.getrandbits(160) | (1 << 159), rng.getrandbits(1023) + 2, rng.getrandbits(1023) + 2))
+    nwire = 0
+    for cmd, b in zip(wire_cmds, common.run_model(wire_cmds)):
+        evals += 1
+        blob = bytes.fromhex(b[3:])
+        try:
+            key = SshHostPublicKeyVariant.parse_exact_size(blob)
+            kb = bytes(key.key_bytes)
+            got = sorted(key.fingerprints.values())
+            kh = key.host_key_asdict()['known_hosts']
+        except Exception as e:  # pylint: disable=broad-except
+            if nwire < 3:
+                nwire += 1
+                chk.violation('a host key blob encoded per RFC 4253 6.6 is not accepted or has no fingerprints: %s' % type(e).__name__, {'cmd': cmd, 'blob': blob.hex()}, None, True)
+            continue
+        want = sorted(expected_fingerprints(blob).values())
+        if (kb != blob or got != want or kh != base64.b64encode(blob).decode('ascii')) and nwire < 3:
+            nwire += 1
+            chk.violation('host key "%s": key_bytes / fingerprints %s differ from the wire blob / its digests %s' % (
+                bytes.fromhex(cmd.split(' ')[1]).decode('ascii') if cmd.startswith('rsablobn') else 'ssh-dss', got, want),
+                {'cmd': cmd, 'blob': blob.hex(), 'impl': got, 'reference': want}, None, True)
+        seen.add(got[0])
+    chk.coverage['wire_host_keys'] = len(wire_cmds)
     # OpenSSH certificates (ssh-ed25519-cert-v01@openssh.com) with and without critical options / extensions: the blob of
     # the specification is parsed by the implementation; key_bytes must be the wire blob and the fingerprints its digests
     cert_cmds = [cert_cmd(rng) for _ in range(max(12, n // 8))]
@@ -105,7 +136,7 @@ def run(chk):
                             'critical options and extensions (PROTOCOL.certkeys) encoded by the specification and parsed by the implementation: key_bytes = wire '
                             'blob, fingerprints and known_hosts = its digests / base64; non-trivial = distinct values')
     chk.sample({'example': kex[0][:160]})
-    chk.assumptions += ['MD5, SHA-1, SHA-256 and base64 are oracles (hashlib / base64 on both sides)', 'DSS / ECDSA host keys and the RSA / DSS / ECDSA certificate types are not in the specification yet']
+    chk.assumptions += ['MD5, SHA-1, SHA-256 and base64 are oracles (hashlib / base64 on both sides)', 'ECDSA host keys and the RSA / DSS / ECDSA certificate types are not in the specification yet']
 
 
 def cert_cmd(rng):
